@@ -32,6 +32,8 @@ from wrapsa import mutants
 nb = sum(1 for t in mutants.TABLE.values() for m in t if m["kind"] == "break")
 nn = sum(1 for t in mutants.TABLE.values() for m in t if m["kind"] == "benign")
 d = re.sub(r"\d+ breaking \+ \d+ benign edits", f"{nb} breaking + {nn} benign edits", d)
+nfixed = len(k["fixed"])
+d = re.sub(r"\d+ genuine defects were repaired", f"{nfixed} genuine defects were repaired", d)
 d = put("seeds", seeds, d)
 d = put("fixed", fx, d)
 d = put("known", kf, d)
